@@ -5,8 +5,8 @@
 // Model: a connection is a pair of endpoints. Bytes written on an endpoint go to that endpoint's
 // out queue (in flight); they become readable at the other endpoint only when the simulator
 // delivers them: on driver links the driver takes/feeds bytes itself, on pumped links (two real
-// engines) a per-direction pump delivers each write after the world's fixed one-way latency, in
-// FIFO order. Close is a FIN: the other side reads what is in flight and then EOF. TCP semantics
+// engines) the driver delivers each write after the world's fixed one-way latency, in FIFO order,
+// one chunk at a time (World.NextDue / DeliverOne). Close is a FIN: the other side reads what is in flight and then EOF. TCP semantics
 // only: no loss, duplication or reordering inside a connection; a cut loses a chosen suffix of the
 // in-flight bytes of each direction.
 package simnet
@@ -78,10 +78,13 @@ type World struct {
 	Refused int
 	// OnEndpoint is called for every endpoint owned by an engine, before anything can use it.
 	OnEndpoint func(e *Endpoint)
+	// WriteSig (capacity 1) is signalled whenever something is written or closed on a pumped link,
+	// so that a driver sleeping towards the next delivery wakes up and re-plans.
+	WriteSig chan struct{}
 }
 
 func NewWorld() *World {
-	return &World{listeners: map[int]*SimListener{}, refuse: map[int]bool{}}
+	return &World{listeners: map[int]*SimListener{}, refuse: map[int]bool{}, WriteSig: make(chan struct{}, 1)}
 }
 
 // SetRefuse makes dials to port fail with "connection refused" while on.
@@ -119,12 +122,6 @@ func (w *World) newLinkLocked(port int, pumped bool) *Link {
 	l.B = &Endpoint{link: l, side: 1, local: lb, remote: la, wake: make(chan struct{}, 1)}
 	l.A.peer, l.B.peer = l.B, l.A
 	w.Links = append(w.Links, l)
-	if pumped {
-		l.A.pumpCh = make(chan struct{}, 1)
-		l.B.pumpCh = make(chan struct{}, 1)
-		go l.A.pump()
-		go l.B.pump()
-	}
 	return l
 }
 
@@ -244,6 +241,7 @@ type chunk struct {
 	b   []byte
 	due time.Time
 	at  time.Time
+	fin bool
 }
 
 // Endpoint implements net.Conn. State is guarded by the world's mutex, held only for a few
@@ -268,7 +266,7 @@ type Endpoint struct {
 	out     []chunk
 	outFIN  bool
 	dead    bool // writes are swallowed (half-open or cut)
-	pumpCh  chan struct{}
+	cutKept []chunk
 	stalled time.Duration // extra delay added to chunks written from now on (stall fault)
 
 	Written         [][]byte
@@ -356,12 +354,14 @@ func (e *Endpoint) Write(p []byte) (int, error) {
 	if !e.dead {
 		e.out = append(e.out, chunk{b: b, due: now.Add(e.link.w.Latency + e.stalled), at: now})
 	}
-	pump := e.pumpCh
+	pumped := e.link.Pumped
 	e.link.w.mu.Unlock()
 	if cb != nil {
 		cb(e, b)
 	}
-	kick(pump)
+	if pumped {
+		kick(e.link.w.WriteSig)
+	}
 	return len(p), nil
 }
 
@@ -381,54 +381,80 @@ func (e *Endpoint) Close() error {
 		e.link.w.mu.Unlock()
 		return nil
 	}
+	now := time.Now()
 	e.closed = true
-	e.ClosedAt = time.Now()
+	e.ClosedAt = now
 	e.outFIN = true
-	pump := e.pumpCh
 	cb := e.OnClose
-	if pump == nil && !e.dead {
-		// driver link: the driver sees outFIN via Closed(); nothing to deliver.
+	pumped := e.link.Pumped
+	if pumped && !e.dead {
+		e.out = append(e.out, chunk{fin: true, due: now.Add(e.link.w.Latency + e.stalled), at: now})
 	}
 	e.link.w.mu.Unlock()
 	e.signal()
-	kick(pump)
+	if pumped {
+		kick(e.link.w.WriteSig)
+	}
 	if cb != nil {
 		cb(e)
 	}
 	return nil
 }
 
-// pump delivers this endpoint's writes to the peer after the latency, in order.
-func (e *Endpoint) pump() {
-	for {
-		e.link.w.mu.Lock()
-		if e.dead {
-			e.link.w.mu.Unlock()
-			return
+// NextDue returns the earliest due time among the in-flight chunks of pumped links.
+func (w *World) NextDue() (time.Time, bool) {
+	w.mu.Lock()
+	defer w.mu.Unlock()
+	var best time.Time
+	found := false
+	for _, l := range w.Links {
+		if !l.Pumped || l.IsCut {
+			continue
 		}
-		if len(e.out) == 0 {
-			if e.outFIN {
-				e.peer.rxEOF = true
-				e.link.w.mu.Unlock()
-				e.peer.signal()
-				return
+		for _, e := range []*Endpoint{l.A, l.B} {
+			if len(e.out) > 0 && !e.dead {
+				if d := e.out[0].due; !found || d.Before(best) {
+					best, found = d, true
+				}
 			}
-			e.link.w.mu.Unlock()
-			<-e.pumpCh
-			continue
 		}
-		c := e.out[0]
-		wait := time.Until(c.due)
-		if wait > 0 {
-			e.link.w.mu.Unlock()
-			time.Sleep(wait)
-			continue
-		}
-		e.out = e.out[1:]
-		e.peer.rx = append(e.peer.rx, c.b)
-		e.link.w.mu.Unlock()
-		e.peer.signal()
 	}
+	return best, found
+}
+
+// DeliverOne delivers exactly one chunk (the earliest due; ties by link id, then side) if it is due.
+// The driver settles after each call, so a receiving session never has two frames made ready at once.
+func (w *World) DeliverOne() bool {
+	now := time.Now()
+	w.mu.Lock()
+	var pick *Endpoint
+	for _, l := range w.Links {
+		if !l.Pumped || l.IsCut {
+			continue
+		}
+		for _, e := range []*Endpoint{l.A, l.B} {
+			if len(e.out) > 0 && !e.dead && !e.out[0].due.After(now) {
+				if pick == nil || e.out[0].due.Before(pick.out[0].due) {
+					pick = e
+				}
+			}
+		}
+	}
+	if pick == nil {
+		w.mu.Unlock()
+		return false
+	}
+	c := pick.out[0]
+	pick.out = pick.out[1:]
+	if c.fin {
+		pick.peer.rxEOF = true
+	} else {
+		pick.peer.rx = append(pick.peer.rx, c.b)
+	}
+	peer := pick.peer
+	w.mu.Unlock()
+	peer.signal()
+	return true
 }
 
 // ---- driver-side operations (called on the driver goroutine at quiescence) ----
@@ -516,9 +542,7 @@ func (e *Endpoint) SetDead() {
 	e.link.w.mu.Lock()
 	e.dead = true
 	e.out = nil
-	pump := e.pumpCh
 	e.link.w.mu.Unlock()
-	kick(pump)
 }
 
 // Stall delays everything written on this endpoint from now on by d (in addition to latency).
@@ -528,27 +552,35 @@ func (e *Endpoint) Stall(d time.Duration) {
 	e.link.w.mu.Unlock()
 }
 
-// Cut severs a pumped link. Of each direction's in-flight bytes a prefix of keepA (written by A)
-// resp. keepB bytes still arrives, the rest is lost; then both owners read EOF (or rerr when set).
-// Returns the in-flight byte counts before the cut.
-func (l *Link) Cut(keepA, keepB int, rerr error) (int, int) {
+// A cut is performed in steps so that the driver can settle between them (a frame and the EOF
+// behind it must not become ready for a session at the same time):
+//
+//	CutBegin(keepA, keepB)   trims each direction's in-flight bytes to the kept prefix; from now on
+//	                         writes on both endpoints are swallowed
+//	CutDeliverNext()         hands the next kept chunk to its receiver (false when none is left)
+//	CutFinish(side, err)     EOF (or err) to the owner of endpoint side 0 (A) or 1 (B)
+//
+// Cut does all of it at once (teardown).
+func (l *Link) CutBegin(keepA, keepB int) (int, int) {
 	l.w.mu.Lock()
+	defer l.w.mu.Unlock()
 	if l.IsCut {
-		l.w.mu.Unlock()
 		return 0, 0
 	}
 	l.IsCut = true
 	l.CutAt = time.Now()
-	fa, fb := 0, 0
-	for _, c := range l.A.out {
-		fa += len(c.b)
-	}
-	for _, c := range l.B.out {
-		fb += len(c.b)
-	}
-	flush := func(e *Endpoint, keep int) {
+	count := func(e *Endpoint) int {
+		n := 0
 		for _, c := range e.out {
-			if keep <= 0 {
+			n += len(c.b)
+		}
+		return n
+	}
+	fa, fb := count(l.A), count(l.B)
+	trim := func(e *Endpoint, keep int) {
+		var kept []chunk
+		for _, c := range e.out {
+			if keep <= 0 || c.fin {
 				break
 			}
 			b := c.b
@@ -556,23 +588,55 @@ func (l *Link) Cut(keepA, keepB int, rerr error) (int, int) {
 				b = b[:keep]
 			}
 			keep -= len(b)
-			e.peer.rx = append(e.peer.rx, b)
+			kept = append(kept, chunk{b: b})
 		}
+		e.cutKept = kept
 		e.out = nil
 		e.dead = true
-		if rerr != nil {
-			e.peer.rxErr = rerr
-		} else {
-			e.peer.rxEOF = true
+	}
+	trim(l.A, keepA)
+	trim(l.B, keepB)
+	return fa, fb
+}
+
+func (l *Link) CutDeliverNext() bool {
+	l.w.mu.Lock()
+	for _, e := range []*Endpoint{l.A, l.B} {
+		if len(e.cutKept) > 0 {
+			c := e.cutKept[0]
+			e.cutKept = e.cutKept[1:]
+			e.peer.rx = append(e.peer.rx, c.b)
+			peer := e.peer
+			l.w.mu.Unlock()
+			peer.signal()
+			return true
 		}
 	}
-	flush(l.A, keepA)
-	flush(l.B, keepB)
-	pa, pb := l.A.pumpCh, l.B.pumpCh
 	l.w.mu.Unlock()
-	kick(pa)
-	kick(pb)
-	l.A.signal()
-	l.B.signal()
+	return false
+}
+
+func (l *Link) CutFinish(side int, rerr error) {
+	e := l.A
+	if side == 1 {
+		e = l.B
+	}
+	l.w.mu.Lock()
+	if rerr != nil {
+		e.rxErr = rerr
+	} else {
+		e.rxEOF = true
+	}
+	l.w.mu.Unlock()
+	e.signal()
+}
+
+// Cut severs a link at once: kept prefixes arrive, then both owners read EOF (or rerr).
+func (l *Link) Cut(keepA, keepB int, rerr error) (int, int) {
+	fa, fb := l.CutBegin(keepA, keepB)
+	for l.CutDeliverNext() {
+	}
+	l.CutFinish(0, rerr)
+	l.CutFinish(1, rerr)
 	return fa, fb
 }
